@@ -24,7 +24,7 @@ inductive Res (ι α : Type) where
   | ok (a : α) (rest : List ι)
   | err (cut : Bool) (ctx : List Ctx) (rest : List ι)
   | panic (site : Text)
-  deriving Repr, Inhabited
+  deriving Repr, Inhabited, DecidableEq
 
 abbrev P (ι α : Type) := List ι → Res ι α
 
